@@ -19,11 +19,12 @@ from framework import graph_replay, replay_tlc_trace
 SPEC = "Storage"
 PEND = {"idle": "idle", "new_heap": "new", "new_shared": "new", "del_old": "delete", "del_after": "delete",
         "delete": "delete", "store": "store"}
-FRKEYS = ("c", "live", "where", "slot", "blk", "tr", "ct", "dt")
+FRKEYS = ("c", "o", "live", "where", "slot", "blk", "tr", "eo", "asz", "dz", "ct", "dt")
+OBJKEYS = ("st", "ptr", "cap", "inv", "fac")
 WORKERS = 2
 
 NSLOTS = 6
-ALL = '{"default", "reusable", "mtsafe", "stack", "placement", "buffer", "extra"}'
+ALL = '{"default", "reusable", "mtsafe", "stack", "placement", "buffer"}'
 
 
 def proj(st):
@@ -35,8 +36,8 @@ def proj(st):
     return {
         "heap": list(st["heap"]),
         "fr": [{k: f[k] for k in FRKEYS} for f in fr],
-        "ptr": st["ptr"], "cap": st["cap"], "busy": st["busy"],
-        "news": st["news"], "dels": st["dels"], "inv": st["inv"], "torn": st["torn"],
+        "objs": [{k: o[k] for k in OBJKEYS} for o in st["objs"]], "busy": st["busy"],
+        "news": st["news"], "dels": st["dels"], "torn": st["torn"],
         "pend": {t: PEND[r["at"]] for t, r in pc.items()},
         "bad": [],
     }
@@ -55,7 +56,10 @@ def header(mode, grain, obs="full"):
     callback_await_coro created through callback_await_alloc<Policy> (the with_allocator path scheduler.h uses) with a
     callback of three sizes (+ 8).  Two-thread scenarios use 0/1 (the future of 2/3 has scheduling points of its own)."""
     def hdr(k, st0):
-        return {"policy": st0["env"]["pol"], "mode": mode, "grain": grain, "kill": "destroy" if k % 3 == 2 else "finish",
+        # ex: promise_extra_storage<T, policy>; copy: placement / buffer / stack storages only refer to memory, every
+        # other creation of the scenario goes through a copy of the storage object
+        return {"policy": st0["env"]["pol"], "ex": st0["env"]["ex"], "mode": mode, "grain": grain,
+                "kill": "destroy" if k % 3 == 2 else "finish", "copy": k % 5 in (1, 3),
                 "init": st0["env"]["init"], "nslots": NSLOTS, "fam": k % (2 if mode == "mt" else 4), "obs": obs}
     return hdr
 
@@ -98,8 +102,9 @@ def alloc_replay(ctx):
     sizes = [l for l in out.splitlines() if l.startswith("SIZES")]
     ctx.extra["storage_frame_sizes"] = sizes
     fixed = probe_grow(rp) != "delete_new"
-    c = {"Policies": '{"stack", "reusable", "mtsafe"}', "MaxCreate": 4, "MaxOverlap": 2, "Grain": '"call"',
-         "Fixed": "TRUE" if fixed else "FALSE", "StackInits": "{0}", "BufferInits": "{0}", "PlaceInits": "{300}"}
+    c = {"Policies": '{"stack", "reusable", "mtsafe"}', "ExPolicies": "{}", "MaxCreate": 4, "MaxOverlap": 2,
+         "Grain": '"call"', "Fixed": "TRUE" if fixed else "FALSE", "StackInits": "{0}", "BufferInits": "{0}",
+         "PlaceInits": "{300}", "MaxMoves": 0, "MaxOwner": 0}
     # the shape family follows the scenario number: the random walks on top of the edge cover put every short
     # history under several families
     run_cfg(ctx, rp, "stor_alloc", "Storage_seq.cfg", c, "seq", ["Create", "Complete", "Teardown"], obs="alloc",
@@ -128,10 +133,16 @@ def run(ctx):
 
     # 1. every policy, one thread: all create/complete sequences (the policy and its initial size
     #    parameter are chosen in the initial state)
-    c = {"Policies": ALL, "MaxCreate": 5 if ctx.quick else 6, "MaxOverlap": 3, "Grain": '"call"', "Fixed": FX,
+    #    each policy also as base of promise_extra_storage<T, policy>; reusable_storage objects constructed, moved,
+    #    move-assigned and destroyed between frames; the owner of reusable_buffer_storage's vector resizing, shrinking,
+    #    clearing, moving out and swapping it between frames
+    c = {"Policies": ALL, "ExPolicies": ALL, "MaxCreate": 4 if ctx.quick else 6, "MaxCreateEx": 3 if ctx.quick else 5,
+         "MaxOverlap": 3, "Grain": '"call"', "Fixed": FX, "MaxMoves": 2 if ctx.quick else 3, "MaxOwner": 2 if ctx.quick else 3,
          "StackInits": "{0, 200}" if ctx.quick else "{0, 200, 201}",
          "BufferInits": "{0, 200}", "PlaceInits": "{300}" if ctx.quick else "{300, 200}"}
-    run_cfg(ctx, rp, "seq", "Storage_seq.cfg", c, "seq", ["Create", "Complete", "Teardown"])
+    run_cfg(ctx, rp, "seq", "Storage_seq.cfg", c, "seq",
+            ["Create", "CreateB", "Complete", "Teardown", "NewObj", "MoveCtor", "MoveAssign", "Drop",
+             "OwnerResize", "OwnerShrink", "OwnerClear", "OwnerMoveOut", "OwnerSwap"])
 
     # 2. two threads on one reusable_storage_mtsafe, scheduling points = atomic operations on _busy
     c = {"MaxCreate": 4 if ctx.quick else 5, "MaxOverlap": 3, "Classes": "{1, 2, 3}", "Grain": '"atomic"', "Fixed": FX}
@@ -167,8 +178,8 @@ def run(ctx):
         res = ctx.tlc(SPEC, SPEC, demo, "mt2alloc_cex", workers=1)
         if not res.violation:
             raise vlib.MachineryError("release-first model expected to violate Exclusive at allocator grain")
-        hdr = {"policy": "mtsafe", "mode": "mt", "grain": "alloc", "kill": "finish", "init": 0, "nslots": NSLOTS,
-               "fam": 0, "obs": "full"}
+        hdr = {"policy": "mtsafe", "ex": False, "copy": False, "mode": "mt", "grain": "alloc", "kill": "finish", "init": 0,
+               "nslots": NSLOTS, "fam": 0, "obs": "full"}
         followed, out, text = replay_tlc_trace(ctx, res, rp, proj, hdr, "mt2alloc")
         if not followed:
             # In the last state the model has two live frames in one block; the replayer then reports, from
